@@ -56,9 +56,13 @@ impl TestRunnerAdapter {
         thread::spawn(move || {
             let mut last_checked_pc = None;
             while thread_is_connected.load(Ordering::Relaxed) {
-                let state = *thread_state.lock().unwrap();
-                match state {
+                // The run state stays locked while an instruction is checked and executed, so that 'pause'
+                // cannot publish 'Stopped' in the middle of an iteration and then see one more instruction execute
+                let mut state = thread_state.lock().unwrap();
+                let current_state = *state;
+                match current_state {
                     MachineRunningState::Launching | MachineRunningState::Stopped(_) => {
+                        drop(state);
                         thread::sleep(Duration::from_millis(50));
                     }
                     MachineRunningState::Running => {
@@ -75,7 +79,6 @@ impl TestRunnerAdapter {
                                     .iter()
                                     .any(|bp| bp.range.start <= pc && bp.range.end > pc)
                                 {
-                                    let mut state = thread_state.lock().unwrap();
                                     let old = *state;
                                     let new = MachineRunningState::Stopped(pc);
                                     *state = new;
@@ -232,12 +235,17 @@ impl MachineAdapter for TestRunnerAdapter {
     }
 
     fn pause(&mut self) -> MosResult<()> {
+        // The program counter is read while the run state is locked: the machine thread cannot execute
+        // an instruction between reading the program counter and publishing it
+        let mut state = self.state.lock().unwrap();
         let pc = self.runner.read().unwrap().cpu().get_program_counter();
         #[cfg(mos_verif)]
         crate::verif_sched::point(3);
-        self.update_state(MachineRunningState::Stopped(ProgramCounter::new(
-            pc as usize,
-        )))?;
+        let old = *state;
+        let new = MachineRunningState::Stopped(ProgramCounter::new(pc as usize));
+        *state = new;
+        self.event_sender
+            .send(MachineEvent::RunningStateChanged { old, new })?;
         Ok(())
     }
 
